@@ -42,21 +42,24 @@ static Geom make_geom(int g) {
 
 // Every option set names every option it depends on (speed and position bits), and nothing is reset between calls: what a call produces may depend
 // on the options it sets, never on what an earlier call left behind.  Option set 1 uses speed 10 (sequential coding is auto-selected), 2 speed 0.
+// The position grid is explicit in every option set (bits, origin, range): a second configuration of the same object has to replace all three.
+static const float kOrigin[4][3] = {{0, 0, 0}, {-1.f, -1.f, -1.f}, {-2.f, -2.f, -2.f}, {-1.f, -0.5f, -1.f}};
+static const float kRange[4] = {0, 8.f, 16.f, 4.f};
+static const int kBits[4] = {0, 14, 10, 31}, kSpeed[4] = {0, 10, 0, 3};
 static void apply_hl(Encoder *e, int o) {
-  if (o == 1) { e->SetSpeedOptions(10, 10); e->SetAttributeQuantization(GeometryAttribute::POSITION, 14); }
-  if (o == 2) { e->SetSpeedOptions(0, 0); e->SetAttributeQuantization(GeometryAttribute::POSITION, 10); }
-  if (o == 3) { e->SetSpeedOptions(3, 3); e->SetAttributeQuantization(GeometryAttribute::POSITION, 31); }
+  e->SetSpeedOptions(kSpeed[o], kSpeed[o]);
+  e->SetAttributeExplicitQuantization(GeometryAttribute::POSITION, kBits[o], 3, kOrigin[o], kRange[o]);
 }
 static void apply_ex(ExpertEncoder *e, int o) {
-  if (o == 1) { e->SetSpeedOptions(10, 10); e->SetAttributeQuantization(0, 14); }
-  if (o == 2) { e->SetSpeedOptions(0, 0); e->SetAttributeQuantization(0, 10); }
-  if (o == 3) { e->SetSpeedOptions(3, 3); e->SetAttributeQuantization(0, 31); }
+  e->SetSpeedOptions(kSpeed[o], kSpeed[o]);
+  e->SetAttributeExplicitQuantization(0, kBits[o], 3, kOrigin[o], kRange[o]);
 }
 static EncoderOptions ll_options(int o) {
   EncoderOptions eo = EncoderOptions::CreateDefaultOptions();
-  if (o == 1) { eo.SetSpeed(10, 10); eo.SetAttributeInt(0, "quantization_bits", 14); }
-  if (o == 2) { eo.SetSpeed(0, 0); eo.SetAttributeInt(0, "quantization_bits", 10); }
-  if (o == 3) { eo.SetSpeed(3, 3); eo.SetAttributeInt(0, "quantization_bits", 31); }
+  eo.SetSpeed(kSpeed[o], kSpeed[o]);
+  eo.SetAttributeInt(0, "quantization_bits", kBits[o]);
+  eo.SetAttributeVector(0, "quantization_origin", 3, kOrigin[o]);
+  eo.SetAttributeFloat(0, "quantization_range", kRange[o]);
   return eo;
 }
 
